@@ -2,7 +2,7 @@
 //vp:pkg ./tsdb
 //vp:roots ./storage ./tsdb/chunkenc ./tsdb/chunks ./model/labels ./model/histogram ./model/value
 //vp:budget wall_s=900
-//vp:bounds re-encoding of merged samples into chunks (storage.NewSeriesToChunkEncoder -> seriesToChunkEncoder.Iterator with the real HistogramChunk appender: plain append, recode of the open chunk for a wider bucket layout, new chunk on counter reset, float/histogram type switch): 3 samples with symbolic strictly increasing timestamps in [0,64); sample kinds and histogram layouts by case split (float; histogram with buckets {0}, {0,1} or {0,1,2}; counts growing or dropping); each output chunk's MinTime/MaxTime are its first/last sample, chunks are time-ordered, and decoding them returns the 3 samples in order
+//vp:bounds re-encoding of merged samples into chunks (storage.NewSeriesToChunkEncoder -> seriesToChunkEncoder.Iterator with the real HistogramChunk appender: plain append, recode of the open chunk for a wider bucket layout, new chunk on counter reset, float/histogram type switch): 3 samples with symbolic strictly increasing timestamps in [0,64), with or without start timestamps (quick: none or all; thorough: per sample; a start timestamp forces the XOR2 / ST histogram encodings); sample kinds and histogram layouts by case split (float; histogram with buckets {0}, {0,1} or {0,1,2}; counts growing or dropping); each output chunk's MinTime/MaxTime are its first/last sample, chunks are time-ordered, and decoding them returns the 3 samples in order
 //vp:assume necessary condition only (see the merge harness); concrete small bucket counts
 package tsdb
 
@@ -15,13 +15,14 @@ import (
 )
 
 type vpXEncSample struct {
+	st int64
 	t int64
 	f float64
 	h *histogram.Histogram
 }
 
 func (s vpXEncSample) T() int64                      { return s.t }
-func (s vpXEncSample) ST() int64                     { return 0 }
+func (s vpXEncSample) ST() int64                     { return s.st }
 func (s vpXEncSample) F() float64                    { return s.f }
 func (s vpXEncSample) H() *histogram.Histogram       { return s.h }
 func (s vpXEncSample) FH() *histogram.FloatHistogram { return nil }
@@ -37,11 +38,19 @@ func vpH_C07_encoder_histogram_recode() {
 	in := make([]vpXEncSample, 3)
 	cs := make([]chunks.Sample, 3)
 	last := int64(-1)
+	allST := !vpThorough() && vpShape("allHaveST", 0, 1) == 1 // quick: no sample or every sample carries a start timestamp; thorough: per sample
 	for i := range in {
 		t := vpInt64()
 		vpAssume(vpAnd(t > last, t < 64))
 		last = t
 		in[i].t = t
+		if vpThorough() {
+			if vpShape("hasST", 0, 1) == 1 {
+				in[i].st = 5 // a start timestamp: needs a chunk encoding that can store it
+			}
+		} else if allST {
+			in[i].st = 5
+		}
 		kind := vpShape("kind", 0, 3) // 0 float; 1..3 histogram with 1..3 buckets
 		if kind == 0 {
 			in[i].f = float64(i + 1)
@@ -79,6 +88,7 @@ func vpH_C07_encoder_histogram_recode() {
 			}
 			lastT = t
 			vpAssert(t == in[k].t, "samples in order with their timestamps")
+			vpAssert(ci.AtST() == in[k].st, "start timestamp stored whenever the sample carries one")
 			if in[k].h == nil {
 				vpAssert(typ == chunkenc.ValFloat, "sample kind")
 				if typ == chunkenc.ValFloat {
